@@ -362,6 +362,11 @@ def explore(ctx):
     R.evaluations += len(work)
     # correspondence: texts through the model (total by construction) and the implementation
     cases = [dict(formula=s, vars=[('x', 3)], funs=[('F', 'record', None)], cells=[], ranges=[]) for s in tx if len(s) < 400 and all(ord(ch) < 0x110000 for ch in s)]
+    # fixed corpus: array arguments of the traps and predicates (ERROR.TYPE of an array raises: a list is unhashable)
+    corpus = ['ERROR.TYPE({1,2})', 'IFERROR(ERROR.TYPE({1,2}),5)', 'ERROR.TYPE({})', 'ERROR.TYPE(1/0)', 'ERROR.TYPE(NA())', 'ERROR.TYPE("a")',
+              'ERROR.TYPE(x)', 'IFNA({1,2},3)', 'IFERROR({1,2},3)', 'IFNA(NA(),{1,2})', 'ISERROR({1,2})', 'ISNA({1,2})', 'ISERR({1,2})',
+              'ISNUMBER({1})', 'ISTEXT({"a"})', 'ISBLANK({1})', 'NOT({1})', 'IF({0},1,2)', 'ISEVEN({2})']
+    cases += [dict(formula=s, vars=[('x', 3)], funs=[('F', 'record', None)], cells=[], ranges=[]) for s in corpus]
     compare(R, ctx, 'parse', cases, interp.enc_case, _impl, key=lambda c: c['formula'], eq=interp.eq_case, limit=10.0)
     R.extra['functions'] = len(names)
     R.extra['calls_per_function'] = per[names[0]]
